@@ -66,7 +66,7 @@ def check_refill(ctx, prog):
 
 def check_fetch(ctx, prog):
     fn = ctx.need_fn(prog, "hdr_fetch")
-    chunk, base = 40, 1000
+    chunk, base = (72 if ctx.tier == 'thorough' else 40), 1000
     bad = None
     nconf = 0
     for coll in (0, 1):
